@@ -58,4 +58,28 @@ def isSpanBlock : Block → Bool
 /-- a document made of such blocks (all at top level) -/
 def SpanDoc (d : Doc) : Bool := d.all isSpanBlock
 
+/-! ### rung C: one level of emphasis around words -/
+
+/-- words, a backslash escape, or `em` / `strong` around words -/
+def isEmItem : Inline → Bool
+  | .text _ => true
+  | .esc _ => true
+  | .em [.text _] => true
+  | .strong [.text _] => true
+  | _ => false
+
+/-- inline content made of words, escapes and emphasised words -/
+def emRun (c : List Inline) : Bool := c.all isEmItem
+
+/-- a block of `SpanDoc`, or a paragraph / ATX heading / Setext heading whose content is words, escapes and
+    emphasised words (code spans and emphasis are not mixed within one paragraph or heading) -/
+def isEmBlock : Block → Bool
+  | .para c => spanRun c || emRun c
+  | .atx _ c => spanRun c || emRun c
+  | .setext _ c => spanRun c || emRun c
+  | b => isSpanBlock b
+
+/-- a document made of such blocks (all at top level) -/
+def EmDoc (d : Doc) : Bool := d.all isEmBlock
+
 end MdVerif.DocSpec
